@@ -389,7 +389,8 @@ def run_element(el: dict) -> list[dict]:
         if "__error__" in kwargs:
             out.append({"pipe": pipe, "transport": "-", "kwargs": "", "error": kwargs["__error__"]})
             continue
-        for tr in TRANSPORTS:
+        # the second case of a coverage template differs from the first before any transport is involved: one transport suffices
+        for tr in (TRANSPORTS[:1] if pipe == "C2" else TRANSPORTS):
             o = send(el, kwargs, tr, pipe)
             r = {"pipe": pipe, "transport": tr, "kwargs": repr(kwargs)[:300]}
             if "error" in o:
@@ -1017,14 +1018,21 @@ def emit(out: Outcome, cases: list[dict], results: list, fails: list[dict], judg
     grouped: dict[tuple, list[dict]] = {}
     for f in fails:
         grouped.setdefault((f["ci"], f["pipe"], f["aspect_full"], f["feature"]), []).append(f)
+    # transports part of the signature: the transports on which the element fails; a transport on which it is outside the fragment
+    # (e.g. '/' in WSGI's decoded PATH_INFO) counts like the other values of the same class at the same site do there
+    site_fail: dict[tuple, set] = {}
+    for (ci, pipe, aspect, feature), fs in grouped.items():
+        group, dims = site_parts(cases[ci], pipe, aspect)
+        site_fail.setdefault((group, dims, feature), set()).update(f["transport"] for f in fs)
     pending = []
     for (ci, pipe, aspect, feature), fs in grouped.items():
-        trs = sorted({f["transport"] for f in fs})
-        # transports on which this aspect got a definite verdict (a transport where it is outside the fragment is neither pass nor fail)
-        ran = sorted(judged_tr.get((ci, pipe, aspect.split(":")[0])) or {r["transport"] for r in results[ci] if r.get("pipe") == pipe and "transport" in r})
-        rest = [t for t in ran if t != "requests"]
-        tr = "all" if trs == ran or trs == ["-"] else "not-requests" if trs == rest and len(rest) > 1 else "+".join(trs)
         group, dims = site_parts(cases[ci], pipe, aspect)
+        trs = sorted({f["transport"] for f in fs})
+        ran = sorted({r["transport"] for r in results[ci] if r.get("pipe") == pipe and "transport" in r})
+        unjudged = set(ran) - judged_tr.get((ci, pipe, aspect.split(":")[0]), set(ran))
+        eff = sorted(set(trs) | (unjudged & site_fail[(group, dims, feature)]))
+        rest = [t for t in ran if t != "requests"]
+        tr = "all" if eff == ran or trs == ["-"] else "not-requests" if eff == rest and len(rest) > 1 else "+".join(eff)
         pending.append((group, feature, tr, dims, ci, pipe, aspect, trs, fs[0]))
     # universe of judged descriptor dimensions per (group, feature): where the same feature was judged at all
     judged_dims: dict[str, list[tuple]] = {}
